@@ -125,6 +125,17 @@ func boundaryEnv() *Env {
 	return e
 }
 
+// floatEnv: the special float values - NaN (unordered: every comparison with it is false), infinities, negative zero
+func floatEnv() *Env {
+	e := baseEnv()
+	e.F64, e.F32 = math.NaN(), float32(math.Inf(1))
+	e.AF = []float64{math.NaN(), math.Copysign(0, -1), math.Inf(-1), 1.5}
+	e.AA = []interface{}{math.NaN(), 1, math.Inf(1), "a", math.Copysign(0, -1)}
+	e.Any = math.NaN()
+	e.MA = map[string]interface{}{"k": math.NaN(), "z": math.Copysign(0, -1)}
+	return e
+}
+
 func randomEnv(rng *rand.Rand) *Env {
 	pickS := func() string { return strPool[rng.Intn(len(strPool))] }
 	smallInt := func() int { return rng.Intn(9) - 2 }
